@@ -168,6 +168,11 @@ func isMarker(data []byte) (name string, after []byte) {
 		if data[i-1] == '\r' {
 			data = data[:len(data)-1]
 		}
+	} else if data[len(data)-1] == '\r' {
+		// A final line without a newline is treated as if the newline
+		// were present, so "-- name --\r" at the end of the input is a
+		// CRLF-terminated marker like any other.
+		data = data[:len(data)-1]
 	}
 	if !bytes.HasSuffix(data, markerEnd) {
 		return "", nil
